@@ -585,6 +585,7 @@ PROPS["C16"] = {
         leg("rt-isolate_critical", "c16_rt", (1, 2), {"kind": "isolate_critical"}, what="an isolated waiter with nothing to do must not run a critical task (priority flow-graph node) that another application thread submitted outside the scope", weight=2.0),
         leg("rt-priority", "c16_rt", (1, 2), {"kind": "priority"}, what="one worker, a low-priority arena whose loop chunks the worker holds in its own pool, and a high-priority arena that receives enqueued work: the worker must be handed over instead of draining its low-priority pool", weight=3.0),
         leg("rt-full_arena", "c16_rt", (1, 2), {"kind": "full_arena"}, what="one worker; task_arena A(2,0) is filled by two application threads, one of which then spawns a task and parks; a task enqueued into arena B(2,1) must get the worker (A has no slot for it and must not keep asking for it)", weight=2.0),
+        leg("rt-full_arena_r1", "c16_rt", (1, 2), {"kind": "full_arena", "resA": 1}, what="same with A(2,1): one application thread in the reserved slot, the other in the first non-reserved slot", weight=2.0),
         leg("rt-gc1", "c16_rt", (2, 3), {"kind": "gc", "L": 1}, what="max_allowed_parallelism 1: no worker runs user work"),
         leg("rt-gc2", "c16_rt", (2, 3), {"kind": "gc", "L": 2}, what="max_allowed_parallelism 2: at most one worker"),
         leg("rt-gc3", "c16_rt", (2, 2), {"kind": "gc", "L": 3}, what="max_allowed_parallelism 3: at most two workers"),
@@ -659,6 +660,7 @@ PROPS["C18"] = {
         leg("pool-orphan", "c18_faults", (3, 5), {"kind": "poolorphan"}, flags=(), what="pool whose slabs were orphaned by a finished thread and emptied by another thread; then every pattern of refused raw requests during a history (hard cache cleanup of orphaned blocks)"),
         leg("pool-orphan-live", "c18_faults", (3, 5), {"kind": "poolorphan", "keep": 5}, flags=(), what="same, five blocks of the finished thread stay live and must stay intact"),
         leg("pool-reset-tls", "c18_faults", (3, 5), {"kind": "poolreset_tls"}, flags=(), what="two threads used the pool and ended, then pool_reset; every pattern of refused raw requests during the history that follows; then a new thread and the main thread allocate again: no block may share memory with anything the allocator still uses (contents intact, no overlap, inside the raw regions)"),
+        leg("pool-reset-tls-live", "c18_faults", (3, 5), {"kind": "poolreset_tls", "threads": 1, "free": 0}, flags=(), what="same with one finished thread whose block was still live at the reset (the reset discards it)"),
         leg("two-pools", "c18_faults", (4, 6), {"kind": "twopools"}, flags=(), what="two pools with live blocks; destroying one must not touch the other"),
         leg("backref-exhaust", "c18_faults", (1, 1), {"kind": "backref"}, flags=("-exec-timeout", "10", "-horizon", "10000000"), what="8400 live large objects exhaust the back-reference table; from an explorer-chosen raw request on, every request is refused (memory stays exhausted): clean failure, no hang, live blocks intact, recovery", weight=2.0),
         leg("backref-exhaust-pool", "c18_faults", (2, 2), {"kind": "poolbackref"}, flags=("-exec-timeout", "15", "-horizon", "10000000"), what="the objects come from a memory pool whose raw callback always succeeds while the default pool (which holds the back-reference table) is drained and out of memory; 0-2 chunks given back by choice", weight=2.0),
